@@ -34,12 +34,12 @@ type thread struct {
 	quiesce bool
 	origin  string
 	// channel rendezvous results
-	chanDone bool
-	chanVal  value
-	chanOK   bool
-	selIdx   int
-	selCases []*selCase
-	spins    int
+	chanDone      bool
+	chanVal       value
+	chanOK        bool
+	selIdx        int
+	selCases      []*selCase
+	spins         int
 	lastPanicSite string
 	hpoints       int // harness-level scheduling points passed (vGo, vYield, vQuiesce)
 	lpoints       int // library-level points passed that the native sync/atomic shim reproduces
